@@ -7,6 +7,7 @@ CONSTANTS
   Offs = {0}
   Rtds = {1}
   DistinctOnly = FALSE
+  Clk0s = {0, 1}
   MaxEv = 6
   FilterAverage = 20
 INVARIANTS Emit
